@@ -21,6 +21,7 @@ C(k, c, i, e, s, nm) == [k |-> k, c |-> c, i |-> i, e |-> e, s |-> s, nm |-> nm]
 IntC(n) == C("ScalarInt", <<>>, n, 0, "", <<>>)
 Big(k) == C("ScalarInt", <<>>, k, 0, "big", <<>>)       \* 2^53 + k
 RealC(n, e) == C("ScalarFloat", <<>>, n, e, "", <<>>)
+Sm(k) == C("ScalarFloat", <<>>, k, 0, "sm", <<>>)          \* k * 2^-60
 Str(x, n) == C("StringLiteral", <<>>, n, 0, x, <<>>)
 NilC == C("ScalarNil", <<>>, 0, 0, "", <<>>)
 Rd(x, n) == C("ReadVar", <<>>, 0, 0, "", <<Nm(x, n)>>)
@@ -100,6 +101,9 @@ TableMakers == << <<SetV("t", 1, Arr(<<>>))>>,
                   \* integers that differ only beyond the precision of a 64-bit real (2^53 + 2, + 1, + 0 and the other way round)
                   <<SetV("t", 1, Arr(<<Big(2), Big(1), Big(0)>>))>>,
                   <<SetV("t", 1, Arr(<<Big(0), Big(1), Big(2), IntC(7)>>))>>,
+                  \* reals that differ by less than any tolerance are different numbers all the same
+                  <<SetV("t", 1, Arr(<<Sm(3), Sm(1), RealC(0, 0), Sm(2), Sm(-1)>>))>>,
+                  <<SetV("t", 1, Arr(<<Sm(1), Sm(2), IntC(0), RealC(1, 1)>>))>>,
                   \* entries whose value is nil are entries like any other
                   <<SetV("t", 1, Arr(<<IntC(4), NilC, IntC(6), NilC>>))>>,
                   <<SetV("t", 1, C("CreateTable", <<>>, 0, 0, "", <<>>)),
